@@ -707,7 +707,6 @@ func checkOpReturns(p *Program, r *Reporter, construct string, head *ssa.BasicBl
 	}
 }
 
-
 // R-VMSTACK: a push never writes beyond the operand stack.
 //
 // The VM turns a program that needs too much stack into ErrStackOverflow instead of crashing the host. That rests on
@@ -891,5 +890,102 @@ func runVMStack(c *Ctx, r *Reporter) {
 	}
 	if n == 0 {
 		r.Undecided("(*VM).push does not store into vm.stack")
+	}
+}
+
+// R-EXITDEFER: no deferred work is pending when the process exits.
+//
+// os.Exit does not run deferred calls. `evy run` ends through handleEvyErr, which exits with the status of the Evy
+// error; anything that a function on the way has deferred — closing, flushing or renaming the SVG output — is
+// silently dropped whenever the program ends with an error or with the exit builtin, which is exactly when "as much
+// of the drawing as was produced" is promised. So in the command package no call that may reach os.Exit is reachable
+// from a defer statement of the same function (the deferred call would still be pending).
+var ruleExitDefer = &Rule{
+	ID:    "R-EXITDEFER",
+	Doc:   "in the command package no call that may reach os.Exit lies behind a defer statement of the same function: work deferred there (closing, flushing, renaming an output file) would be skipped by the exit",
+	Floor: 1,
+	Run:   runExitDefer,
+}
+
+func runExitDefer(c *Ctx, r *Reporter) {
+	p, err := c.Default()
+	if err != nil {
+		r.Undecided("%v", err)
+		return
+	}
+	pkg := p.Pkg("")
+	if pkg == nil {
+		r.Undecided("command package not loaded")
+		return
+	}
+	fns := ssaFuncsOf(p, pkg)
+	var all []*ssa.Function
+	for _, fn := range fns {
+		all = append(all, withAnon(fn)...)
+	}
+	mayExit := map[*ssa.Function]bool{}
+	for changed := true; changed; {
+		changed = false
+		for _, fn := range all {
+			if mayExit[fn] {
+				continue
+			}
+			for _, b := range fn.Blocks {
+				for _, ins := range b.Instrs {
+					call, ok := ins.(*ssa.Call)
+					if !ok {
+						continue
+					}
+					sc := call.Call.StaticCallee()
+					if sc == nil {
+						continue
+					}
+					if (sc.Pkg != nil && sc.Pkg.Pkg.Path() == "os" && sc.Name() == "Exit") || mayExit[sc] {
+						mayExit[fn] = true
+						changed = true
+					}
+				}
+			}
+		}
+	}
+	nExit := 0
+	for _, fn := range all {
+		k := 0
+		for _, b := range fn.Blocks {
+			for i, ins := range b.Instrs {
+				call, ok := ins.(*ssa.Call)
+				if !ok {
+					continue
+				}
+				sc := call.Call.StaticCallee()
+				if sc == nil || !(mayExit[sc] || (sc.Pkg != nil && sc.Pkg.Pkg.Path() == "os" && sc.Name() == "Exit")) {
+					continue
+				}
+				nExit++
+				k++
+				construct := fmt.Sprintf("%s#exit-call[%d]:%s", ssaQName(fn), k, sc.Name())
+				var pending *ssa.Defer
+				for _, b2 := range fn.Blocks {
+					for j, i2 := range b2.Instrs {
+						d, ok := i2.(*ssa.Defer)
+						if !ok {
+							continue
+						}
+						if (b2 == b && j < i) || (b2 != b && reachesBlock(b2, b)) {
+							pending = d
+						}
+					}
+				}
+				if pending == nil {
+					r.Ok(construct, p.Rel(instrPos(call)), "no deferred call can be pending here")
+				} else {
+					r.Viol(construct, p.Rel(instrPos(call)), fmt.Sprintf("%s may end the process through os.Exit while the call deferred at %s is still pending: deferred work (closing, flushing or renaming an output file) is skipped — "+
+						"with --svg-out the drawing of a program that ends with an error or with `exit` would be lost", sc.Name(), p.Rel(instrPos(pending))))
+				}
+			}
+		}
+	}
+	if nExit == 0 {
+		r.Undecided("no call that may reach os.Exit found in the command package")
 	}
 }
